@@ -278,6 +278,21 @@ def single_call(ctx, prop, cases, variant="default", force=None, mode="run", mod
                      "buffer (%s): their names / values are not sub-slices of it" % " ".join(t for t in I.exposed if t[0] != "W")[:80],
                      impl=iraw)
             continue
+        if prop == "C05" and c[0] == "A" and kind == "p" and len(I.f) > 1 and I.f[1].isdigit():
+            # a reported status code is the value of exactly three ASCII digits of THIS buffer: the three bytes after
+            # the version literal and its SP delimiter(s)
+            b = c[6]
+            j = 0
+            while j < len(b) and b[j] in (13, 10):
+                j += 1
+            k = j + 8
+            while k < len(b) and b[k] == 32:
+                k += 1
+            d = b[k:k + 3]
+            if not (len(d) == 3 and all(48 <= x <= 57 for x in d) and int(d) == int(I.f[1])):
+                ctx.fail(c, "code %s is reported, but the three bytes after the version and its delimiter are %r: not "
+                         "three ASCII digits with that value" % (I.f[1], bytes(d)), impl=iraw)
+                continue
         if prop in REF_PROPS and R is not None and R.status != "NA":
             if proj(prop, kind, I, start) != proj(prop, kind, R, start):
                 ctx.fail(c, "implementation differs from the reference parser on the %s projection" % prop,
@@ -748,7 +763,53 @@ def run_C13(ctx):
                 break
     ctx.notes.append("digests: " + ", ".join("%s=%s" % (k, v[:10]) for k, v in sorted(digests.items())))
     ctx.samples.append({"variants": sorted(runs.keys()), "corpus_cases": len(order)})
-    # alignment: the same buffer at every start alignment 0..31 (scan hook places it)
+    # alignment: the same buffer at every start offset 0..15 and 31..33 of an aligned arena, surrounded by in-class
+    # filler or NULs, on the optimised and the debug-assertions build: one result per buffer
+    r2 = Rng(ctx.seed).fork("align")
+    abases = []
+    for i in range(60 if q else 1500):
+        kind = "qph"[i % 3]
+        b = gen.GRAM[kind](r2, lenient=i % 2)
+        abases.append((kind, b))
+        abases.append((kind, b[:r2.below(len(b) + 1)]))
+    for tl in (3, 7, 8, 9, 12, 15, 16, 17, 24, 31, 33, 40, 55, 70):
+        abases.append(("q", b"GET /" + b"index/assets/x"[:tl % 14] + b"a" * tl))                  # ends inside the target
+        abases.append(("q", b"GET /" + b"a" * tl + b" HTTP/1.1\r\nHost: x\r\n\r\n"))
+        abases.append(("h", b"Name: " + b"v" * tl))                                                # ends inside a value
+        abases.append(("h", b"n" * tl))                                                            # ends inside a name
+    offs = list(range(16)) + [31, 32, 33]
+    lcases = []
+    for j, (kind, b) in enumerate(abases):
+        for off in offs:
+            for fill in (97, 0):
+                lcases.append(("L", "al.%d.%d.%d" % (j, off, fill), kind, 0 if kind == "h" else 1, 0, 4, off, fill, b))
+    lruns = {}
+    for v in ("default", "dbg", "nosimd"):
+        if os.path.exists(harness_path(v)):
+            rr = execute("C13-align", lcases, variant=v, want_model=(v == "default"))
+            ctx.broken += rr.errors
+            lruns[v] = rr
+    if "default" in lruns:
+        lref = lruns["default"]
+        for j, (kind, b) in enumerate(abases):
+            want = lref.impl.get("al.%d.0.97" % j)
+            for v, rr in lruns.items():
+                for off in offs:
+                    for fill in (97, 0):
+                        cid = "al.%d.%d.%d" % (j, off, fill)
+                        got = rr.impl.get(cid)
+                        if got is None or want is None:
+                            continue
+                        ctx.evaluations += 1
+                        if v == "default" and cid in rr.model:
+                            ctx.validated += 1
+                            if rr.model[cid] != got:
+                                ctx.mismatch(rr.cases[cid], got, rr.model[cid])
+                        if got != want:
+                            ctx.fail(rr.cases[cid], "the result depends on where the buffer lies (variant %s, offset %d in a 64-byte "
+                                     "aligned arena filled with byte %d): %s   (default build at offset 0: %s)"
+                                     % (v, off, fill, got, want), impl=got)
+        ctx.nontrivial.add(("aligned", len(lcases)))
     # cold-start races
     hp = harness_path("default")
     n = 40 if q else 1500
